@@ -116,6 +116,13 @@ TRead(p, j) ==
                  /\ UNCHANGED <<n, oneway, sl, pos, mode, wire, tw>>
             ELSE Refuse("tread", p, j, "rej")
 
+\* deliver bytes that are no transport message at all (too short for an authentication tag)
+TGarbage(p) ==
+    /\ mode[p] = "tr"
+    /\ IF oneway /\ p = "I"
+       THEN Refuse("tgarbage", p, 0, "state")
+       ELSE Refuse("tgarbage", p, 0, "rej")
+
 Next ==
     \E p \in P :
         \/ Write(p)
@@ -123,6 +130,7 @@ Next ==
         \/ Garbage(p)
         \/ Convert(p)
         \/ TWrite(p)
+        \/ TGarbage(p)
         \/ \E j \in 0..(MaxT - 1) : TRead(p, j)
 
 Spec == Init /\ [][Next]_vars
